@@ -32,3 +32,29 @@ Print Assumptions C05_mem_pass_is_per_swarm_steps.
 Theorem C05_mem_gc_refines : forall n st sp T, (0 < n)%nat -> mem_inv n st sp -> mem_inv n (mem_gc T st) (sm_gc T sp).
 Proof. exact gc_inv. Qed.
 Print Assumptions C05_mem_gc_refines.
+
+(* ---- Redis store, sequential: a membership survives a pass iff it was announced after T *)
+From Chihaya Require Import Proofs.RedisP.
+Theorem C05_redis_gc_peer : forall ops T, Forall sop_wf ops ->
+  forall ih v6 s pk t, ih_wf ih ->
+    r_hash (k_swarm v6 s ih) (run_redis (ops ++ [SExpire T])) !! pk = Some t <->
+    r_hash (k_swarm v6 s ih) (run_redis ops) !! pk = Some t /\ T < t.
+Proof. exact redis_gc_peer. Qed.
+Print Assumptions C05_redis_gc_peer.
+
+Theorem C05_redis_put_refreshes : forall ops ih v6 pk, Forall sop_wf ops -> ih_wf ih ->
+  let c := (srun red_if redis_init ops).2 in
+  r_hash (k_swarm v6 true ih) (run_redis (ops ++ [SPutSeeder ih v6 pk])) !! pk = Some c /\
+  r_hash (k_swarm v6 false ih) (run_redis (ops ++ [SPutLeecher ih v6 pk])) !! pk = Some c /\
+  r_hash (k_swarm v6 true ih) (run_redis (ops ++ [SGraduate ih v6 pk])) !! pk = Some c /\
+  r_hash (k_swarm v6 false ih) (run_redis (ops ++ [SGraduate ih v6 pk])) !! pk = None.
+Proof. exact redis_put_refreshes. Qed.
+Print Assumptions C05_redis_put_refreshes.
+
+(* right after a pass a swarm key is registered iff its hash still has members: emptied swarms are gone *)
+Theorem C05_redis_gc_registered_exact : forall ops T, Forall sop_wf ops ->
+  forall ih v6 s, ih_wf ih ->
+    let st' := run_redis (ops ++ [SExpire T]) in
+    is_Some (r_hash (k_group v6) st' !! k_swarm v6 s ih) <-> r_hash (k_swarm v6 s ih) st' <> ∅.
+Proof. exact redis_gc_registered_exact. Qed.
+Print Assumptions C05_redis_gc_registered_exact.
